@@ -384,7 +384,15 @@ def step (s : St) (line : String) : St × String :=
           verdict (trnFields m h)
         else match s.x.tcur with
           | none => "bad-op"
-          | some cur => verdict (trnFields (TRN.step Float.sqrt o hess cur) h)
+          | some cur =>
+            -- besides the refinement: the two facts the TRN theorems take as hypotheses / prove in exact arithmetic
+            -- are checked on the tied model: the sub-problem predicts no increase, its step is inside the radius
+            let sol := TRN.subproblem Float.sqrt cur
+            verdict (trnFields (TRN.step Float.sqrt o hess cur) h ++
+              -- (at a stationary point, g = 0, the C++ divides 0/0 in borderDistance: prediction and step are NaN, the
+              --  step is rejected because every comparison with NaN is false; NaN passes these two tests)
+              [("predicted-change<=0", if sol.1 > 0 then 2 else 0),
+               ("step-inside-radius", if Vec.normSqr sol.2 > cur.delta * cur.delta * (1 + 1e-9) then 2 else 0)])
       ({ s with x := { s.x with tcur := some h } }, out)
   | [op, st, bx] =>
     if op != "xstep" then (s, "bad-op") else
